@@ -4,7 +4,13 @@
 //
 //	admit = (insecure ∨ (server certificate chains to the client's CA ∧ is within its validity ∧ matches
 //	         the upstream host as the user wrote it)) ∧ (¬requireClientCert ∨ client certificate signed by the server's CA)
-//	UDP shared secret: admit = (secret_client == secret_server)
+//	UDP shared secret: admit = (secret_client == secret_server), compared as the byte strings the two users wrote
+//
+// Trust anchors: "the configured CA" / "its CA" is the CA of the configuration entry, given inline or by file. An
+// endpoint WITHOUT a configured CA verifies against the machine's trust store (crypto/tls's documented meaning
+// of an empty pool; the harness points the store at the foreign CA): a peer that presents no certificate, or one
+// of the run's own CA (never in that store), is still not acceptable; whether a peer chaining to the machine's store
+// is admitted is not decided by the property ("unspecified": observed and counted, never a verdict).
 //
 // Observed: a logical connection is opened through the real client command (which forces
 // Upstreams.Connect against the real server command); "admitted" = the channel's recording target
@@ -20,10 +26,13 @@ import (
 	"encoding/json"
 	"fmt"
 	"io"
+	"math/rand"
 	"net"
+	"net/url"
 	"os"
 	"path/filepath"
 	"strings"
+	"sync"
 	"testing"
 
 	"github.com/bokysan/socketace/v2/internal/client/upstream"
@@ -49,7 +58,18 @@ type c05Case struct {
 	// spelling and pointing at a port nobody listens on; the verdict depends on the second entry only
 	// (state left behind by the failed first attempt must not change what is verified for the second)
 	Preceded bool `json:"preceded_by_refused_upstream_with_other_host,omitempty"`
+	// Trust anchors of the two configuration entries: "" = CA one given inline (caCertificate), "file" = CA one given
+	// by file (caCertificateFile), "none" = no CA configured at all (the machine's trust store decides)
+	ServerCA string `json:"server_ca,omitempty"`
+	ClientCA string `json:"client_ca,omitempty"`
+	// shared-secret cases: which near miss of the server's secret the client holds, and how the client's address
+	// string was turned into an address ("" = flag/ParseAddress, "json" = configuration file value)
+	SecretVar string `json:"secret_variant,omitempty"`
+	Parse     string `json:"client_address_parsed_via,omitempty"`
 }
+
+// unspecified: the property does not say whether this aspect admits or refuses
+const unspecified = "?"
 
 var carriers = []string{"tcp+tls", "wss", "tcp+starttls", "ws+starttls", "udp+starttls", "dns+starttls"}
 var serverCerts = []string{"Good", "GoodDNS", "IPOnly", "WrongHost", "Untrusted", "Expired"}
@@ -84,7 +104,10 @@ var certProps = map[string]certProp{
 func certReason(c *c05Case) string {
 	p := certProps[c.Cert]
 	switch {
-	case !p.trusted:
+	case c.ClientCA == "none" && p.trusted:
+		// no CA configured on the client: the machine's trust store decides, and CA one is never in it
+		return "not-in-system-store"
+	case c.ClientCA != "none" && !p.trusted:
 		return "untrusted"
 	case !p.valid:
 		return "expired"
@@ -99,6 +122,9 @@ func certReason(c *c05Case) string {
 		return "no-host-in-url"
 	}
 	if match {
+		if c.ClientCA == "none" {
+			return unspecified // issued by the foreign CA, which may or may not be in the machine's trust store
+		}
 		return ""
 	}
 	switch c.Cert {
@@ -111,34 +137,60 @@ func certReason(c *c05Case) string {
 }
 
 func clientReason(c *c05Case) string {
-	if !c.Require || c.ClientCert == "own" {
+	if !c.Require {
+		return ""
+	}
+	if c.ServerCA == "none" {
+		// requireClientCert without a CA on the server entry: the machine's trust store decides
+		switch c.ClientCert {
+		case "none":
+			return "none"
+		case "own":
+			return "own-not-in-system-store"
+		}
+		return unspecified
+	}
+	if c.ClientCert == "own" {
 		return ""
 	}
 	return c.ClientCert // none | foreign
 }
 
+// anchorSuffix names a non-default trust-anchor configuration (part of the signature: a different defect class)
+func anchorSuffix(side, v string) string {
+	if v == "" {
+		return ""
+	}
+	return ":" + side + "-ca=" + v
+}
+
 // model returns the expected admission and the signature fragment describing the configuration class.
-func model(c *c05Case) (admit bool, class string) {
+func model(c *c05Case) (admit bool, class string, specified bool) {
 	if c.Kind == "secret" {
-		if c.SecretRel == "equal" {
-			return true, "secret=equal"
-		}
-		return false, "secret=" + c.SecretRel
+		// the two secrets as the users hold them; the relation only names the class
+		return c.SrvSecret == c.CliSecret, "secret=" + c.SecretRel, true
 	}
 	cr, kr := certReason(c), clientReason(c)
-	admit = (c.Insecure || cr == "") && kr == ""
-	if !admit {
+	certBad := !c.Insecure && cr != "" && cr != unspecified
+	keyBad := kr != "" && kr != unspecified
+	if certBad || keyBad {
 		var parts []string
-		if cr != "" && !c.Insecure {
-			parts = append(parts, "cert="+cr)
+		if certBad {
+			parts = append(parts, "cert="+cr+anchorSuffix("client", c.ClientCA))
 		}
-		if kr != "" {
-			parts = append(parts, "clientcert="+kr+":require-client-cert")
+		if keyBad {
+			parts = append(parts, "clientcert="+kr+":require-client-cert"+anchorSuffix("server", c.ServerCA))
 		}
-		return false, strings.Join(parts, "+")
+		return false, strings.Join(parts, "+"), true
 	}
+	if (!c.Insecure && cr == unspecified) || kr == unspecified {
+		return false, "unspecified" + anchorSuffix("server", c.ServerCA) + anchorSuffix("client", c.ClientCA), false
+	}
+	defer func() { class += anchorSuffix("server", c.ServerCA) + anchorSuffix("client", c.ClientCA) }()
 	// acceptable configuration: name its least ordinary aspect
 	switch {
+	case c.Insecure && cr == unspecified:
+		class = "insecure:cert=of-foreign-ca"
 	case c.Insecure && cr != "":
 		class = "insecure:cert=" + cr
 	case c.Cert == "GoodDNS":
@@ -152,7 +204,7 @@ func model(c *c05Case) (admit bool, class string) {
 	default:
 		class = "cert=good"
 	}
-	return true, class
+	return true, class, true
 }
 
 func label(c *c05Case) string {
@@ -166,10 +218,61 @@ func label(c *c05Case) string {
 }
 
 func key(c *c05Case) string {
-	return fmt.Sprintf("%s/%s/%s/%v/%s/%v/%s/%s/%v", c.Kind, c.Carrier, c.Cert, c.Insecure, c.ClientCert, c.Require, c.Host, c.SecretRel, c.Preceded)
+	k := fmt.Sprintf("%s/%s/%s/%v/%s/%v/%s/%s/%v", c.Kind, c.Carrier, c.Cert, c.Insecure, c.ClientCert, c.Require, c.Host, c.SecretRel, c.Preceded)
+	if c.ServerCA != "" || c.ClientCA != "" {
+		k += fmt.Sprintf("/server-ca=%s/client-ca=%s", c.ServerCA, c.ClientCA)
+	}
+	if c.SecretVar != "" || c.Parse != "" {
+		k += "/" + c.SecretVar + "/" + c.Parse
+	}
+	return k
 }
 
 // ---- running one case -------------------------------------------------------------------------
+
+var caFileOnce sync.Once
+var caFilePath string
+var caFileErr error
+
+// caFile: CA one as a file in the child's private working directory (caCertificateFile)
+func caFile() (string, error) {
+	caFileOnce.Do(func() {
+		wd, err := os.Getwd()
+		if err != nil {
+			caFileErr = err
+			return
+		}
+		caFilePath = filepath.Join(wd, fmt.Sprintf("c05-ca-one-%d.pem", os.Getpid()))
+		caFileErr = os.WriteFile(caFilePath, []byte(e2e.GetC05PKI().CA1), 0644)
+	})
+	return caFilePath, caFileErr
+}
+
+// anchors applies a trust-anchor choice to the generic part of a certificate configuration
+func anchors(choice string, cfg *cert.Config) {
+	switch choice {
+	case "none":
+		cfg.CaCertificate, cfg.CaCertificateFile = "", ""
+	case "file":
+		cfg.CaCertificate = ""
+		cfg.CaCertificateFile, _ = caFile()
+	}
+}
+
+// parseAddress turns the address string into an address the way the named configuration path does
+func parseAddress(via, s string) (addr.ProtoAddress, error) {
+	if via == "json" {
+		var pa addr.ProtoAddress
+		q, _ := json.Marshal(s)
+		err := json.Unmarshal(q, &pa)
+		return pa, err
+	}
+	pa, err := addr.ParseAddress(s)
+	if err != nil {
+		return addr.ProtoAddress{}, err
+	}
+	return *pa, nil
+}
 
 func start(c *c05Case) (*e2e.Pair, error) {
 	pk := e2e.GetC05PKI()
@@ -178,6 +281,13 @@ func start(c *c05Case) (*e2e.Pair, error) {
 		Carrier: c.Carrier, ServerCert: &sc, ServerCA: pk.CA1, ClientCA: pk.CA1, ClientInsecure: c.Insecure,
 		RequireClient: c.Require, StrictVerify: true, Domain: e2e.C05Domain, Tag: "c",
 	}
+	if c.ServerCA == "file" || c.ClientCA == "file" {
+		if _, err := caFile(); err != nil {
+			return nil, fmt.Errorf("harness: CA file: %v", err)
+		}
+	}
+	o.ServerCfgEdit = func(s *cert.ServerConfig) { anchors(c.ServerCA, &s.Config) }
+	o.ClientCfgEdit = func(k *cert.ClientConfig) { anchors(c.ClientCA, &k.Config) }
 	if c.Host == "localhost" {
 		o.UpstreamHost = "localhost"
 	}
@@ -215,6 +325,7 @@ func start(c *c05Case) (*e2e.Pair, error) {
 		}
 		ccfg := cert.ClientConfig{InsecureSkipVerify: c.Insecure}
 		ccfg.CaCertificate = pk.CA1
+		o.ClientCfgEdit(&ccfg)
 		if err := p.C05AttachClient([]upstream.Upstream{&forcedUp{Upstream: p.Up, crt: &crt}}, ccfg, false); err != nil {
 			p.Close()
 			return nil, err
@@ -244,11 +355,17 @@ func start(c *c05Case) (*e2e.Pair, error) {
 	}
 	cred := ""
 	if c.CliSecret != "" {
-		cred = "u:" + c.CliSecret + "@"
+		cred = url.UserPassword("u", c.CliSecret).String() + "@" // (escapes what a URL cannot carry literally, e.g. a blank)
 	}
-	up := &upstream.Packet{Address: addr.MustParseAddress("udp://" + cred + host)}
+	pa, err := parseAddress(c.Parse, "udp://"+cred+host)
+	if err != nil {
+		p.Close()
+		return nil, fmt.Errorf("harness: client address: %v", err)
+	}
+	up := &upstream.Packet{Address: pa}
 	ccfg := cert.ClientConfig{}
 	ccfg.CaCertificate = pk.CA1
+	o.ClientCfgEdit(&ccfg)
 	if err := p.C05AttachClient([]upstream.Upstream{up}, ccfg, false); err != nil {
 		p.Close()
 		return nil, err
@@ -379,7 +496,7 @@ func stallClass(c *c05Case, admit bool, class string) string {
 }
 
 func runCase(rec *vcommon.Rec, st *runState, c *c05Case) {
-	admit, class := model(c)
+	admit, class, specified := model(c)
 	sc := stallClass(c, admit, class)
 	if st != nil && st.abandoned[sc] {
 		rec.Stat("skipped_after_two_stalls", 1)
@@ -406,6 +523,12 @@ func runCase(rec *vcommon.Rec, st *runState, c *c05Case) {
 		rec.Case(key(c), false)
 		return
 	}
+	if !specified {
+		// the property does not decide this configuration (only reached through a replay file): observe, no verdict
+		rec.Case(key(c), false)
+		rec.Stat("unspecified_by_the_property:observed_"+obs, 1)
+		return
+	}
 	rec.Case(key(c), true)
 	rec.Sample(map[string]interface{}{"case": c, "expected_admit": admit, "class": class, "observed": obs})
 	rec.Seen("carrier", lab)
@@ -418,8 +541,16 @@ func runCase(rec *vcommon.Rec, st *runState, c *c05Case) {
 		rec.Seen("pair(carrier,host)", lab+"|"+c.Host)
 		rec.Seen("pair(server_cert,insecure)", fmt.Sprintf("%s|%v", c.Cert, c.Insecure))
 		rec.Seen("pair(server_cert,host)", c.Cert+"|"+c.Host)
+		if c.ServerCA != "" || c.ClientCA != "" {
+			rec.Seen("tuple(carrier,server_ca,client_cert,require)", fmt.Sprintf("%s|%s|%s|%v", lab, c.ServerCA, c.ClientCert, c.Require))
+			rec.Seen("tuple(carrier,client_ca,server_cert,insecure)", fmt.Sprintf("%s|%s|%s|%v", lab, c.ClientCA, c.Cert, c.Insecure))
+			rec.Stat("cases_with_non_default_trust_anchors", 1)
+		}
 	} else {
 		rec.Seen("secret_relation", lab+"|"+c.SecretRel)
+		if c.SecretVar != "" {
+			rec.Seen("secret_variant(carrier,relation,variant,address_parsed_via)", lab+"|"+c.SecretRel+"|"+c.SecretVar+"|"+c.Parse)
+		}
 	}
 	rec.Seen("class(carrier,expected,configuration)", fmt.Sprintf("%s|admit=%v|%s", lab, admit, class))
 	exp := "reject"
@@ -574,7 +705,44 @@ func quickTLS(seed int64, extra int) []*c05Case {
 	return out
 }
 
-func secretCases() []*c05Case {
+// secretAlphabet: characters a URL carries literally in its userinfo part (RFC 3986 "unreserved")
+const secretAlphabet = "abcdefghijklmnopqrstuvwxyzABCDEFGHIJKLMNOPQRSTUVWXYZ0123456789-._~"
+
+// randomSecret: n characters, of which at least four are lower-case and four are upper-case letters
+func randomSecret(rng *rand.Rand, n int) string {
+	for {
+		b := make([]byte, n)
+		lo, up := 0, 0
+		for i := range b {
+			b[i] = secretAlphabet[rng.Intn(len(secretAlphabet))]
+			switch {
+			case b[i] >= 'a' && b[i] <= 'z':
+				lo++
+			case b[i] >= 'A' && b[i] <= 'Z':
+				up++
+			}
+		}
+		if lo >= 4 && up >= 4 {
+			return string(b)
+		}
+	}
+}
+
+func swapCase(b byte) byte {
+	switch {
+	case b >= 'a' && b <= 'z':
+		return b - 'a' + 'A'
+	case b >= 'A' && b <= 'Z':
+		return b - 'A' + 'a'
+	}
+	return b
+}
+
+// secretCases: the four basic relations with fixed secrets, then NEAR MISSES of a seeded mixed-case secret (the
+// client holds something that any normalisation - letter case, length, blanks - would make equal to the server's
+// secret, but that is a different secret), then equal secrets of the same shapes. Cases that are expected to be
+// refused hang until the client's handshake timeout: they come first, so that they spread over the shards.
+func secretCases(seed int64) []*c05Case {
 	var out []*c05Case
 	for _, car := range []string{"udp", "udp+starttls"} {
 		for _, r := range []struct{ rel, s, c string }{
@@ -585,6 +753,129 @@ func secretCases() []*c05Case {
 		} {
 			out = append(out, &c05Case{Kind: "secret", Carrier: car, Cert: "Good", ClientCert: "none", Host: "127.0.0.1",
 				SrvSecret: r.s, CliSecret: r.c, SecretRel: r.rel})
+		}
+	}
+	rng := vcommon.NewRand(seed, "c05/secrets")
+	type variant struct{ rel, name, s, c string }
+	var miss, same []*c05Case
+	for _, car := range []string{"udp", "udp+starttls"} {
+		base := randomSecret(rng, 12+rng.Intn(9))
+		long := randomSecret(rng, 80)
+		// one letter of base in the other case
+		one := []byte(base)
+		for {
+			i := rng.Intn(len(one))
+			if swapCase(one[i]) != one[i] {
+				one[i] = swapCase(one[i])
+				break
+			}
+		}
+		// long secret whose last character differs (a derivation that looks at a prefix only would not see it)
+		tail := []byte(long)
+		for tail[len(tail)-1] == long[len(long)-1] {
+			tail[len(tail)-1] = secretAlphabet[rng.Intn(len(secretAlphabet))]
+		}
+		for _, v := range []variant{
+			{"case-only", "client-all-lower", base, strings.ToLower(base)},
+			{"case-only", "client-all-upper", base, strings.ToUpper(base)},
+			{"case-only", "server-all-lower", strings.ToLower(base), base},
+			{"case-only", "one-letter", base, string(one)},
+			{"proper-prefix", "client-one-shorter", base, base[:len(base)-1]},
+			{"proper-prefix", "client-one-longer", base, base + string(secretAlphabet[rng.Intn(len(secretAlphabet))])},
+			{"long-differs-at-end", "80-characters", long, string(tail)},
+			{"blank-padded", "client-trailing-blank", base, base + " "},
+			{"equal", "mixed-case", base, base},
+			{"equal", "80-characters", long, long},
+		} {
+			c := &c05Case{Kind: "secret", Carrier: car, Cert: "Good", ClientCert: "none", Host: "127.0.0.1",
+				SrvSecret: v.s, CliSecret: v.c, SecretRel: v.rel, SecretVar: v.name}
+			if rng.Intn(2) == 1 {
+				c.Parse = "json"
+			}
+			if v.rel == "equal" {
+				same = append(same, c)
+			} else {
+				miss = append(miss, c)
+			}
+		}
+	}
+	out = append(out, miss...)
+	return append(out, same...)
+}
+
+// ---- trust anchors: CA given by file, or not given at all -----------------------------------------
+
+var anchorCombos = [][2]string{{"none", ""}, {"file", ""}, {"", "none"}, {"", "file"}, {"none", "none"}, {"file", "file"}}
+
+// anchorAll: (server CA, client CA) not both default x server certificate {Good, Untrusted} x insecure x client
+// certificate x require, on the first host spelling of every carrier; configurations the property does not decide
+// are left out.
+func anchorAll() []*c05Case {
+	var out []*c05Case
+	for _, car := range carriers {
+		for _, ac := range anchorCombos {
+			for _, ce := range []string{"Good", "Untrusted"} {
+				for _, ins := range []bool{false, true} {
+					for _, cc := range clientCerts {
+						for _, req := range []bool{false, true} {
+							c := &c05Case{Kind: "tls", Carrier: car, Cert: ce, Insecure: ins, ClientCert: cc, Require: req,
+								Host: hostsOf(car)[0], ServerCA: ac[0], ClientCA: ac[1]}
+							if _, _, ok := model(c); ok {
+								out = append(out, c)
+							}
+						}
+					}
+				}
+			}
+		}
+	}
+	return out
+}
+
+// anchorCore: per carrier, every single deviation of the trust-anchor configuration together with the peers it
+// has to keep out (and one it has to let in, which shows that the endpoint works at all).
+func anchorCore() []*c05Case {
+	var out []*c05Case
+	for _, car := range carriers {
+		h := hostsOf(car)[0]
+		add := func(sca, cca, ce string, ins bool, cc string, req bool) {
+			out = append(out, &c05Case{Kind: "tls", Carrier: car, Cert: ce, Insecure: ins, ClientCert: cc, Require: req, Host: h, ServerCA: sca, ClientCA: cca})
+		}
+		// server entry without a CA
+		add("none", "", "Good", false, "none", true)
+		add("none", "", "Good", false, "own", true)
+		add("none", "", "Good", false, "none", false)
+		// client without a CA
+		add("", "none", "Good", false, "none", false)
+		add("", "none", "Good", true, "none", false)
+		// CA by file, either side
+		add("file", "", "Good", false, "own", true)
+		add("file", "", "Good", false, "none", true)
+		add("file", "", "Good", false, "foreign-forced", true)
+		add("", "file", "Good", false, "none", false)
+		add("", "file", "Untrusted", false, "none", false)
+	}
+	return out
+}
+
+// quickAnchors = anchorCore + n seeded picks of anchorAll
+func quickAnchors(seed int64, n int) []*c05Case {
+	out := anchorCore()
+	chosen := map[string]bool{}
+	for _, c := range out {
+		chosen[key(c)] = true
+	}
+	all := anchorAll()
+	rng := vcommon.NewRand(seed, "c05/anchors")
+	rng.Shuffle(len(all), func(i, j int) { all[i], all[j] = all[j], all[i] })
+	for _, c := range all {
+		if n == 0 {
+			break
+		}
+		if !chosen[key(c)] {
+			chosen[key(c)] = true
+			out = append(out, c)
+			n--
 		}
 	}
 	return out
@@ -625,8 +916,10 @@ func TestVerifC05(t *testing.T) {
 				tls = append(tls, c)
 			}
 		}
+		tls = append(tls, anchorAll()...)
 	} else {
 		tls = quickTLS(rec.Seed(), 100)
+		tls = append(tls, quickAnchors(rec.Seed(), 30)...)
 	}
 	if v := os.Getenv("VERIF_CARRIERS"); v != "" {
 		var f []*c05Case
@@ -643,7 +936,7 @@ func TestVerifC05(t *testing.T) {
 	// the shared-secret cases come first so that the ones that are expected to hang spread over the shards.
 	var plain, dns []*c05Case
 	if os.Getenv("VERIF_CARRIERS") == "" {
-		plain = append(plain, secretCases()...)
+		plain = append(plain, secretCases(rec.Seed())...)
 	}
 	for _, c := range tls {
 		if strings.HasPrefix(c.Carrier, "dns") {
